@@ -32,10 +32,11 @@ func Sum(modes ...*traits.ElectricMode) *traits.ElectricMode {
 		if mode.StartTime != nil {
 			stCount++
 			st := mode.StartTime.AsTime()
-			if earliest.IsZero() || st.Before(earliest) {
+			// the first start time seeds both bounds: the zero time.Time is a valid start time, not "unset"
+			if stCount == 1 || st.Before(earliest) {
 				earliest = st
 			}
-			if latest.IsZero() || st.After(latest) {
+			if stCount == 1 || st.After(latest) {
 				latest = st
 			}
 		}
